@@ -6,8 +6,9 @@ object - with section headers / stripped -, reader machine, declarative view) ov
 G: every object the specification emits is concretised twice (WithSections, Stripped) from the chunks the
    specification computed; DynamicSection and DynamicSegment of the first image and DynamicSegment of the second
    are observed (iter_tags / get_tag / num_tags in several consumption patterns, DynamicTag.entry and
-   .needed/.soname/.rpath/.runpath, iter_tags(type=), get_table_offset, get_relocation_tables; DynamicSegment
-   .num_symbols / iter_symbols / get_symbol / get_symbol_by_name) and compared with the view AND with each other.
+   .needed/.soname/.rpath/.runpath, iter_tags(type=), get_table_offset, get_relocation_tables - the tables the array
+   names, each with its flavour and entries; DynamicSegment .num_symbols / iter_symbols / get_symbol /
+   get_symbol_by_name) and compared with the view AND with each other.
 T: for every corpus file with PT_DYNAMIC the tag scans of the section view, the segment view and of a copy whose
    section header table was removed are validated by spec/trace/DynamicTrace.tla against the scan machine run on
    the raw table bytes; the three views must agree on tags, strings and (where a hash table determines it) the
@@ -140,7 +141,42 @@ def _cmp_tags(ctx, bad, label, pattern, vtags, got):
     return ok
 
 
-def _observe_view(ctx, bad, label, fresh, vtags, full, relfree):
+def _cmp_relocs(bad, label, d, rels, rtag):
+    """get_relocation_tables() against the specification's tables: rows {name, rela, ents: [r_offset, r_info, symbol, type, r_addend]}."""
+    names = sorted(r['name'] for r in rels)
+    try:
+        rt = d.get_relocation_tables()
+    except Exception as ex:
+        bad('get_relocation_tables', names, 'exc:%s:%s' % (type(ex).__name__, ex), label, tag=rtag)
+        return
+    if sorted(rt) != names:
+        bad('get_relocation_tables', names, sorted(rt), label, tag=rtag)
+        return
+    for r in rels:
+        t = rt[r['name']]
+        clause = 'relocation_table.' + r['name']
+        try:
+            if r['name'] == 'RELR':
+                want = [denote(e[0]) for e in r['ents']]
+                have = [x['r_offset'] for x in t.iter_relocations()]
+                if have != want or t.num_relocations() != len(want):
+                    bad(clause, {'r_offset': want}, {'r_offset': have, 'num_relocations': t.num_relocations()}, label, tag=rtag)
+                continue
+            fields = ('r_offset', 'r_info', 'r_info_sym', 'r_info_type') + (('r_addend',) if r['rela'] else ())
+            want = [dict(zip(fields, (denote(e[0]), denote(e[1]), e[2], e[3], denote(e[4])))) for e in r['ents']]
+            got = list(t.iter_relocations())
+            have = [{k: (x.entry[k] if k in x.entry else 'missing') for k in fields} for x in got]
+            flav = {'is_RELA': r['rela'], 'num_relocations': len(want)}
+            obs = {'is_RELA': t.is_RELA(), 'num_relocations': t.num_relocations()}
+            if obs != flav or have != want or any(x.is_RELA() != r['rela'] for x in got):
+                bad(clause, dict(flav, entries=want), dict(obs, entries=have, entry_is_RELA=[x.is_RELA() for x in got]), label, tag=rtag)
+            elif [{k: t.get_relocation(i).entry[k] for k in fields} for i in reversed(range(len(want)))][::-1] != want:
+                bad(clause, dict(flav, entries=want), 'get_relocation(n) differs from iter_relocations()', label, tag=rtag)
+        except Exception as ex:
+            bad(clause, {'entries': len(r['ents'])}, 'exc:%s:%s' % (type(ex).__name__, ex), label, tag=rtag)
+
+
+def _observe_view(ctx, bad, label, fresh, vtags, full, relfree, rels=(), rtag=None):
     """All tag-level observations of one view.  `fresh()` returns a new Dynamic object of the image.  `full`: this view
     takes the object's turn for the costlier patterns (every view gets its turn on every third object)."""
     out = {}
@@ -190,10 +226,8 @@ def _observe_view(ctx, bad, label, fresh, vtags, full, relfree):
                 have = list(d.get_table_offset(rows[i]['d_tag']))
                 if have != want:
                     bad('get_table_offset', {'tag': rows[i]['d_tag'], 'ptr,offset': want}, have, label)
-            if full and relfree:
-                rt = d.get_relocation_tables()
-                if rt != {}:
-                    bad('get_relocation_tables', {}, sorted(rt), label)
+            if rels or (full and relfree):
+                _cmp_relocs(bad, label, d, rels, rtag)
         elif rows != first:
             bad('tags.pattern', {'pattern iter.list': first}, {'pattern ' + pattern: rows}, label)
     out['rows'] = first
@@ -319,6 +353,11 @@ def _replay(run, ctx, obj, ELFFile):
         return fresh
 
     turn = run.index % 3
+    rs = o.get('rels')
+    rtag = None
+    if rs and view.get('rels'):
+        # the class of the object in the DT_PLTREL x present-tables dimension (computed by the specification: key.b.rels)
+        rtag = 'pltrel=%s/tables=%s' % (rs['plt'], '+'.join(k for k in ('rel', 'rela', 'relr') if rs[k]) or 'none')
     views = (('section', opener(img1, 'section'), 'DynamicSection'), ('segment', opener(img1, 'segment'), 'DynamicSegment'),
              ('stripped', opener(img2, 'segment'), 'DynamicSegment'))
     obs = {}
@@ -331,7 +370,7 @@ def _replay(run, ctx, obj, ELFFile):
                     continue
                 if label == 'stripped' and d.elffile.num_sections() != 0:
                     bad('front-end', 'no sections', d.elffile.num_sections(), label)
-                obs[label] = _observe_view(ctx, bad, label, fresh, view['tags'], vi == turn, view['relfree'])
+                obs[label] = _observe_view(ctx, bad, label, fresh, view['tags'], vi == turn, view['relfree'], view.get('rels', ()), rtag)
                 if label != 'section':
                     obs[label]['syms'], note = _observe_symbols(ctx, bad, label, fresh(), view, cclass)
                     if note and cclass.startswith('gnu-empty'):
@@ -388,7 +427,7 @@ def _objects(run, path, cfg, stats):
 
 
 def _g_check(run, ELFFile):
-    cfgs = ['Dynamic_quick'] if run.tier == 'quick' else ['Dynamic_thorough', 'Dynamic_thorough3']
+    cfgs = ['Dynamic_quick', 'Dynamic_adjrel'] if run.tier == 'quick' else ['Dynamic_thorough', 'Dynamic_thorough3', 'Dynamic_adjrel']
     ctx = None
     ntags = 0
     undet = []
@@ -651,7 +690,9 @@ def check(run):
     from elftools.elf.elffile import ELFFile
     run.rule = ('G cases = dynamic objects emitted by Dynamic.tla (modes: tag sequences x machine/OS ABI configurations x variant; tails '
                 'after DT_NULL x position of the mandatory block; PT_LOAD layouts; symbol tables x hash kinds x symoffset incl. GNU ld\'s '
-                'empty table; one object per group of registry DT codes under several machines / OS ABIs), each as two images (with '
+                'empty table; one object per group of registry DT codes under several machines / OS ABIs; three PT_LOADs with the second '
+                'directly behind the first in memory but not in the file x the table at that boundary; relocation tables: subsets of '
+                'REL/RELA/RELR x DT_JMPREL absent / DT_PLTREL = REL / RELA), each as two images (with '
                 'section headers, stripped); distinct by the object key; non-trivial = more than the terminator in the array.  '
                 'T cases = corpus files with PT_DYNAMIC (three scans each); non-trivial = all of them')
     run.assumptions += ['DT_STRTAB and DT_SYMTAB are present, the array is terminated inside PT_DYNAMIC / .dynamic, PT_LOAD address ranges '
@@ -661,7 +702,8 @@ def check(run):
                         'names the vendored registry / the Solaris table of DynScan.tla do not define are not asserted (vocabulary gating)',
                         'strings that are not UTF-8 have no representation fixed by the property: only "a string in every view, the same '
                         'in all views" is asserted for them',
-                        'relocation tables named by dynamic tags are C08\'s (Reloc.tla mode dyn); here only "no tags -> no tables"']
+                        'relocation entries are read under the generic r_info split (no MIPS64 objects in mode rel); RELR tables hold '
+                        'address entries only (bitmaps, machine-specific r_info and application are C08\'s)']
     ctx = _g_check(run, ELFFile)
     _trace_check(run, ctx)
     if not run.samples:
